@@ -91,6 +91,7 @@ func cmdCheck(args []string) int {
 	overflow := fs.Bool("overflow", true, "generate overflow obligations")
 	known := fs.String("known", "/verif/known_findings.json", "known findings file")
 	replays := fs.String("replays", "/verif/replays", "replay directory")
+	level := fs.String("level", "proof", "level recorded in the evidence (proof|other), as claimed in MANIFEST.json")
 	fs.Parse(args)
 	t0 := time.Now()
 	p, err := loadProgram(*repo)
@@ -169,6 +170,9 @@ func cmdCheck(args []string) int {
 	}
 	sort.Strings(stale)
 	tGen := time.Since(t0).Seconds() - tLoad
+	for _, f := range loadKnown(*known).Findings {
+		knownObls[f.Obligation] = true
+	}
 	stats := &SolveStats{SolverSec: map[string]float64{}}
 	solveAll(allPaths, *work, ms, *jobs, *solver, stats)
 	tSolve := time.Since(t0).Seconds() - tLoad - tGen
@@ -177,6 +181,7 @@ func cmdCheck(args []string) int {
 	rep.LoadSec, rep.GenSec, rep.SolveSec = tLoad, tGen, tSolve
 	rep.Stats = stats
 	rep.TimeoutMs = ms
+	rep.Level = *level
 	rep.WallSec = time.Since(t0).Seconds()
 	rep.print(*verbose)
 	code := rep.finish(*evidence, *known, *replays, want)
